@@ -158,6 +158,10 @@ pub fn run(run: &Run) {
     // C16's scenario of a custom pool wholly held by the wallet in several coins: blocks of up to three withdrawals, among them
     // those that together redeem all of the pool's liquidity (settled pro rata, rounded down, like any other)
     crate::props::c16::custom_pool_withdrawals(run, run.thorough());
+    // requests that are *not* settled (the liquidity they would mint does not fit the pool's record) leave the pool where it was:
+    // C16's histories of pools at the edge of their 128-bit record, judged here by the settlement oracles
+    crate::props::c16::lopsided_huge_pool(run);
+    crate::props::c16::huge_pool_histories(run, run.thorough());
     for sc in scenarios(run.thorough()) {
         sample_alphabet(run, &sc);
         let st = run_scenario(run, &sc, 2_000_000);
